@@ -6,7 +6,7 @@
    for every tree: the call only deletes declarations that exist (it never adds or alters one, never touches another node). *)
 From Coq Require Import List NArith.
 From XotV Require Import Model.Base Model.Zipper Model.Access Model.Store Model.Manip Model.Fullname Model.Scope Model.Entity
-                         Model.XmlSer Model.NsTools Proofs.NsProofs Proofs.DedupProofs.
+                         Model.XmlSer Model.NsTools Model.Builder Proofs.NsProofs Proofs.DedupProofs.
 Import ListNotations.
 Open Scope N_scope.
 
@@ -27,17 +27,20 @@ Proof. exact dedup_prefixes_sound. Qed.
 Print Assumptions C15_only_existing_declarations_removed.
 
 (* "deduplicate_namespaces only removes redundant declarations": whatever the tree — shadowing or not — a declaration p -> ns is
-   deleted from an element e only if (1) e does declare it and (2) the namespace ns is declared, under some prefix, by a proper
-   ancestor of e INSIDE the subtree the call was made on ([anc_decls e T] lists the declarations of those ancestors, nearest
-   first; T is the subtree of the node the call names).  Proved by following the analysis pass of src/nameaccess.rs (the
+   deleted from an element e only if (1) e does declare it and (2) the namespace ns is bound to some prefix q by
+   nearest-declaration-wins scoping over the declarations of the proper ancestors of e INSIDE the subtree the call was made on
+   ([anc_decls e T] lists those declarations, nearest first; [lookup_stack] is the resolution the parser performs, Model/Builder.v):
+   the binding q -> ns is in force at the parent of e.  Proved by following the analysis pass of src/nameaccess.rs (the
    FullnameSerializer stack and the tracker) along the whole traversal, by induction on the subtree: Proofs/DedupProofs.v.
-   What this does NOT say — and what the known findings below refute under shadowing — is that the ancestor's binding is still
-   in force at e. *)
+   ([Forall NoDup]: no element declares one prefix twice — C04.)
+   What this does NOT say — and what the known findings below refute under shadowing — is that q is not re-bound on e itself or
+   below it, where the names that relied on p stand. *)
 Theorem C15_only_redundant_declarations_removed :
   forall nm z e p, NoDup (z_slot z :: ids (z_kids z)) ->
     In (e, p) (dedup_prefixes z (dedup_edges nm (traverse z) (fs_new []) [] [])) ->
-    exists ez ns l, In ez (descendants z) /\ z_slot ez = e /\ In (p, ns) (declarations ez)
-      /\ anc_decls e (FCons (z_slot z) (z_val z) (z_kids z) FNil) = Some l /\ In ns (map snd (concat l)).
+    exists ez ns l q, In ez (descendants z) /\ z_slot ez = e /\ In (p, ns) (declarations ez)
+      /\ anc_decls e (FCons (z_slot z) (z_val z) (z_kids z) FNil) = Some l
+      /\ (Forall (fun d => NoDup (map fst d)) l -> lookup_stack q l = Some ns).
 Proof. exact dedup_only_redundant. Qed.
 Print Assumptions C15_only_redundant_declarations_removed.
 
